@@ -55,3 +55,71 @@ func Scenarios2() []History {
 
 	return hs
 }
+
+// ParamScenarios: governance changes the parameters while bindings, contexts and requests exist
+func ParamScenarios() []History {
+	var hs []History
+	add := func(tag string, p *MParams, bal map[string]int64, ops ...Ev) {
+		hs = append(hs, History{Reset: baseReset(tag, p, bal), Ops: ops})
+	}
+	rid := func(id, batch, h, idx int64) [4]int64 { return [4]int64{id, batch, h, idx} }
+	with := func(f func(p *MParams)) Ev {
+		p := *smallParams()
+		f(&p)
+		return Ev{Name: "SetParams", RParams: &p}
+	}
+
+	// the maximum request timeout is lowered below the timeout of a running repeated context: the context
+	// keeps its timeout and its cadence, its requests their lifetime; new calls and updates obey the new maximum
+	ops := registry(map[string]int64{"p1": 5, "p2": 3})
+	ops = append(ops,
+		Ev{Name: "Call", Signer: "c1", Svc: "s1", Provs: []string{"p1", "p2"}, Cap: 10, Timeout: 5, Rep: true, Freq: 5, Total: 4},
+		eb(1),
+		with(func(p *MParams) { p.MaxTimeout = 2 }),
+		Ev{Name: "Respond", Signer: "p1", Rid: rid(1, 1, 1, 0), Kind: "valid"},
+		Ev{Name: "Call", Signer: "c2", Svc: "s1", Provs: []string{"p1"}, Cap: 10, Timeout: 3}, // above the new maximum
+		Ev{Name: "Call", Signer: "c2", Svc: "s1", Provs: []string{"p1"}, Cap: 10, Timeout: 2}, // at it
+		Ev{Name: "UpdateContext", Signer: "c1", ID: 1, Timeout: 4, Freq: 5},                   // above it
+		Ev{Name: "UpdateBinding", Signer: "o1", Svc: "s1", Prov: "p2", Qos: 3},                // above it
+		eb(1), eb(1), eb(1), eb(1), eb(1), // batch 2 starts at height 6 under the old timeout of 5
+		Ev{Name: "Obs"},
+		Ev{Name: "Respond", Signer: "p1", Rid: rid(1, 2, 6, 0), Kind: "valid"},
+		eb(1), eb(1), eb(1),
+		Ev{Name: "Respond", Signer: "p2", Rid: rid(1, 2, 6, 1), Kind: "valid"}, // height 10: beyond the new maximum, within its own timeout
+		eb(1), eb(1), // batch 3 at height 11
+		Ev{Name: "Respond", Signer: "p1", Rid: rid(1, 3, 11, 0), Kind: "valid"},
+		Ev{Name: "Respond", Signer: "p2", Rid: rid(1, 3, 11, 1), Kind: "valid"},
+		with(func(p *MParams) { p.MaxTimeout = 6 }),
+		eb(1), eb(1), eb(1), eb(1), eb(1), eb(1), eb(1), eb(1), eb(1), eb(1), eb(1),
+		Ev{Name: "Withdraw", Signer: "o1"},
+	)
+	add("max-timeout-lowered-under-a-running-context", smallParams(), map[string]int64{"c1": 200}, ops...)
+
+	// no slashing (fraction 0) and a minimum deposit raised after the bind: a timeout and a malformed answer
+	// still count as slashes, which find the binding below its minimum and disable it; tax 0 and tax changes
+	// between two responses; the refund lock shortened after the disable
+	ops = registry(map[string]int64{"p1": 5, "p2": 3, "p3": 4})
+	ops = append(ops,
+		Ev{Name: "Call", Signer: "c1", Svc: "s1", Provs: []string{"p1", "p2", "p3"}, Cap: 10, Timeout: 2, Rep: true, Freq: 3, Total: 3},
+		eb(1),
+		with(func(p *MParams) { p.Slash = 0; p.MinDeposit = 50 }),
+		Ev{Name: "Respond", Signer: "p2", Rid: rid(1, 1, 1, 1), Kind: "bad"},
+		Ev{Name: "Respond", Signer: "p3", Rid: rid(1, 1, 1, 2), Kind: "valid"},
+		Ev{Name: "Bind", Signer: "o2", Svc: "s1", Prov: "pz", Deposit: 40, DShape: "ok", Pr: pr(2), Qos: 1}, // below the new minimum
+		Ev{Name: "UpdateBinding", Signer: "o2", Svc: "s1", Prov: "p3", Qos: 2},                              // response time only, below the new minimum
+		eb(1), eb(1), // p1 times out: not a coin is taken, and it is disabled
+		with(func(p *MParams) { p.Slash = 0; p.MinDeposit = 50; p.Tax = 0; p.RefundDelay = 2 }),
+		eb(1),
+		Ev{Name: "Respond", Signer: "p3", Rid: rid(1, 2, 4, 0), Kind: "valid"},
+		eb(1),
+		Ev{Name: "RefundDeposit", Signer: "o1", Svc: "s1", Prov: "p1"},
+		with(func(p *MParams) { p.Tax = 999; p.Slash = 1000 }),
+		eb(1), eb(1), eb(1),
+		Ev{Name: "Respond", Signer: "p3", Rid: rid(1, 3, 7, 0), Kind: "valid"},
+		eb(1), eb(1), eb(1),
+		Ev{Name: "Withdraw", Signer: "o2"},
+	)
+	add("no-slash-raised-minimum-tax-changes", smallParams(), nil, ops...)
+
+	return hs
+}
